@@ -179,8 +179,8 @@ def m_transpose_none(it, p, callee, args):
     raise mir.Unsupported("transpose of Some")
 
 
-INLINE = [r"(^|::)read_int$", r"^read_int_length$", r"^read_short$", r"^read_value$", r"^read_raw_bytes$", r"^SerializedValues::iter$",
-          r"^<SerializedValuesIterator<'_> as Iterator>::next$", r"^PartitionKey::<'_>::(iter|new|write_encoded_partition_key)",
+INLINE = [r"(^|::)read_int$", r"(^|::)read_int_length$", r"(^|::)read_short$", r"(^|::)read_value$", r"(^|::)read_raw_bytes$", r"(^|::)SerializedValues::iter$",
+          r"^<SerializedValuesIterator<'_> as Iterator>::next$", r"(^|::)PartitionKey::<'_>::(iter|new|write_encoded_partition_key)",
           r"Murmur3PartitionerHasher::(rotl64|fmix|hash_16_bytes|fetch_16_bytes_from_buf|new)$", r"(^|::)Token::new$",
           r"^<PartitionerName as Partitioner>::build_hasher$", r"^<PartitionerHasherAny as PartitionerHasher>::(write|finish)$",
           r"^<(Murmur3|CDC)PartitionerHasher as PartitionerHasher>::(write|finish)$", r"CDCPartitionerHasher::new$",
@@ -190,7 +190,7 @@ INLINE = [r"(^|::)read_int$", r"^read_int_length$", r"^read_short$", r"^read_val
 # --------------------------------------------------------------------------------------------- (i) the parser
 def parser(ctx, cql, k, tier):
     be = mir.BVBackend()
-    fn = cql.find(r"(^|\s)deser_prepared_metadata\(")
+    fn = cql.find(r"(^|\s|::)deser_prepared_metadata\(")
     m_cols = 6                         # concrete col_count in the frame; marker indices are symbolic u16 below it
     idx = [z3.BitVec(f"idx{j}", 16) for j in range(k)]
     body = [bv(0, 8)] * 4 + [bv(0, 8)] * 3 + [bv(m_cols, 8)] + [bv(0, 8)] * 3 + [bv(k, 8)]
